@@ -637,13 +637,26 @@ func runC10(c *Ctx) {
 		okAdd := false
 		for _, x := range find(an, mapUpdate(loadsField(cache))) {
 			mu := x.(*ssa.MapUpdate)
-			okAdd = loadsField(inputOP)(mu.Key) && loadsField(inputPK)(mu.Value)
+			okAdd = loadsField(inputOP)(mu.Key) && bytesFrom(mu.Value, loadsField(inputPK))
 		}
 		c.verdict(okAdd, c.nm(an)+" | cache[req.Input.OutPoint] = req.Input.PkScript", c.P.Pos(an.Pos()), "entry keyed by the request's outpoint holding its script", "addNewRequests does not enter the request's script under the request's outpoint")
 		fe := c.field("neutrino", "batchSpendReporter", "filterEntries")
 		nApp := 0
 		for _, x := range find(an, storeToField(fe)) {
-			if ir.DerivesFrom(x.(*ssa.Store).Val, loadsField(inputPK)) {
+			v := x.(*ssa.Store).Val
+			okEntry := ir.DerivesFrom(v, loadsField(inputPK))
+			if !okEntry {
+				// append(b.filterEntries, entry) with entry a private copy
+				if call, isCall := ir.Strip(v).(*ssa.Call); isCall && isBuiltin("append")(call) && len(call.Call.Args) == 2 {
+					ir.DerivesFrom(call.Call.Args[1], func(y ssa.Value) bool {
+						if bytesFrom(y, loadsField(inputPK)) {
+							okEntry = true
+						}
+						return okEntry
+					})
+				}
+			}
+			if okEntry {
 				nApp++
 			}
 		}
@@ -653,7 +666,18 @@ func runC10(c *Ctx) {
 		// of them is on the cache
 		nAns := 0
 		for _, nr := range c.P.Funcs {
-			if nr.Parent() != nil || !strings.HasPrefix(c.nm(nr), "(*neutrino.batchSpendReporter).") || len(find(nr, callTo(deliver()))) == 0 {
+			if nr.Parent() != nil || !strings.HasPrefix(c.nm(nr), "(*neutrino.batchSpendReporter).") {
+				continue
+			}
+			// (failing requests outright because an input that must be
+			// present is missing answers nothing that was being watched)
+			nDeliver := 0
+			for _, d := range find(nr, callTo(deliver())) {
+				if !ir.UnderMissingInput(d) {
+					nDeliver++
+				}
+			}
+			if nDeliver == 0 {
 				continue
 			}
 			nAns++
